@@ -428,3 +428,30 @@ package core
 //@   loop 1 invariant forall k :: 0 <= k && k <= rangeindex ==> s.ContentJSight.Children[k] == properties[k].schemaContentJSight
 //@   loop 1 decreases rangelen - rangeindex
 //@   loop 1 frame s.ContentJSight, s.UsedUserTypes, heap(SchemaContentJSight.Key)
+
+// BuildResourceMethodsPathVariables$1 (the binding step, run once per interaction): pathVariables lists exactly those
+// {name} segments of the interaction's path for which a property is declared at that prefix, in path order, each with
+// the declared schema. cnt(k) counts the declared ones among the first k segments.
+//@ specfn ipath(v catalog.Interaction) string
+//@ iface catalog.Interaction.Path()
+//@   modifies nothing
+//@   ghostensures ret == ipath(self)
+//@ func (catalog.Path).String
+//@   inline
+//@ func (*catalog.HTTPInteraction).SetPathVariables
+//@   inline
+
+//@ func (*JApiCore).BuildResourceMethodsPathVariables$1
+//@   tag C13 C01
+//@   let cnt(k int) int : cnt(0) == 0 ; forall k :: 0 <= k ==> cnt(k) <= cnt(k+1) && cnt(k+1) <= cnt(k) + 1 && (has(allProjectProperties, ppOf(ipath(v))[k].path) <==> cnt(k+1) == cnt(k) + 1) ; forall a :: forall b :: 0 <= a && a <= b ==> cnt(a) <= cnt(b)
+//@   requires core != nil && (typeis(v, *catalog.HTTPInteraction) ==> ifaceptr(v) != 0)
+//@   requires forall p catalog.Path :: has(allProjectProperties, p) ==> allProjectProperties[p].schemaContentJSight != nil && DirWFv(allProjectProperties[p].directive)
+//@   ensures [C13] isnil(ret1) && typeis(v, *catalog.HTTPInteraction) && cnt(len(ppOf(ipath(v)))) == 0 ==> asptr(*catalog.HTTPInteraction, ifaceptr(v)).PathVariables == old(asptr(*catalog.HTTPInteraction, ifaceptr(v)).PathVariables)
+//@   ensures [C13] isnil(ret1) && typeis(v, *catalog.HTTPInteraction) && cnt(len(ppOf(ipath(v)))) > 0 ==> asptr(*catalog.HTTPInteraction, ifaceptr(v)).PathVariables != nil && asptr(*catalog.HTTPInteraction, ifaceptr(v)).PathVariables.Schema.ContentJSight != nil && len(asptr(*catalog.HTTPInteraction, ifaceptr(v)).PathVariables.Schema.ContentJSight.Children) == cnt(len(ppOf(ipath(v))))
+//@   ensures [C13] isnil(ret1) && typeis(v, *catalog.HTTPInteraction) && cnt(len(ppOf(ipath(v)))) > 0 ==> (forall k :: 0 <= k && k < len(ppOf(ipath(v))) && has(allProjectProperties, ppOf(ipath(v))[k].path) ==> asptr(*catalog.HTTPInteraction, ifaceptr(v)).PathVariables.Schema.ContentJSight.Children[cnt(k)] == allProjectProperties[ppOf(ipath(v))[k].path].schemaContentJSight)
+//@   loop 1 invariant 0 - 1 <= rangeindex && rangeindex <= rangelen - 1 && rangelen == len(pp) && same(pp, ppOf(ipath(v))) && ok && hi == asptr(*catalog.HTTPInteraction, ifaceptr(v)) && hi != nil
+//@   loop 1 invariant len(properties) == cnt(rangeindex + 1)
+//@   loop 1 invariant forall k :: 0 <= k && k <= rangeindex && has(allProjectProperties, pp[k].path) ==> properties[cnt(k)].schemaContentJSight == allProjectProperties[pp[k].path].schemaContentJSight && properties[cnt(k)].parameter == pp[k].parameter
+//@   loop 1 invariant forall j :: 0 <= j && j < len(properties) ==> properties[j].schemaContentJSight != nil && DirWFv(properties[j].directive)
+//@   loop 1 decreases rangelen - rangeindex
+//@   loop 1 frame nothing
